@@ -18,8 +18,10 @@ import (
 	"io"
 	"net"
 	"net/netip"
+	"bufio"
 	"os"
 	"runtime"
+	"strconv"
 	"strings"
 	"sync"
 	"testing"
@@ -100,6 +102,7 @@ type c05Result struct {
 	CwUpN       int          `json:"cw_up_n"`
 	CwDownN     int          `json:"cw_down_n"`
 	Hang        string       `json:"hang,omitempty"`
+	StuckStage  int          `json:"stuck_stage,omitempty"` // 1: inside the prologue, 2: inside the relay
 	Panic       string       `json:"panic,omitempty"`
 }
 
@@ -123,6 +126,7 @@ type c05Clock struct {
 	// timeout; the instant of computation is recovered from the known timeouts and mapped to the virtual time
 	// that was current then (so a deadline computed early and armed late keeps its early origin)
 	t0       time.Time
+	lastAct  time.Time // real time of the last operation any goroutine performed on a harness conn
 	jumps    []c05Jump
 	timeouts []int64
 }
@@ -202,6 +206,7 @@ type c05Conn struct {
 }
 
 func (k *c05Clock) ev(c *c05Conn, what string, arg int64) {
+	k.lastAct = time.Now()
 	k.events = append(k.events, c05Event{T: k.now, Conn: c.name, What: what, Arg: arg})
 }
 
@@ -246,6 +251,7 @@ func (c05TimeoutErr) Timeout() bool   { return true }
 func (c05TimeoutErr) Temporary() bool { return true }
 
 func (c *c05Conn) rec(req, n, e int) {
+	c.clk.lastAct = time.Now()
 	c.reads = append(c.reads, c05ReadRec{Stage: c.clk.stage, Req: req, N: n, Err: e, T: c.clk.now})
 }
 
@@ -304,6 +310,7 @@ func (c *c05Conn) Read(p []byte) (int, error) {
 			wake = c.dl
 		}
 		c.blocked, c.wake = true, wake
+		k.lastAct = time.Now()
 		k.maybeAdvance()
 		if k.now < wake {
 			k.cond.Wait()
@@ -321,6 +328,7 @@ func (c *c05Conn) Write(p []byte) (int, error) {
 	}
 	c.out = append(c.out, p...)
 	c.writes = append(c.writes, len(p))
+	k.lastAct = time.Now()
 	return len(p), nil
 }
 
@@ -519,6 +527,37 @@ func c05Scale(cs *c05Case) time.Duration {
 	return 1
 }
 
+// c05Idle: how long NOTHING may happen on the harness conns (no read, write, deadline, close; no goroutine
+// entering a blocking read) while the connection is unfinished before the verdict is "stuck".  The virtual clock
+// never waits in real time, so a healthy run is never quiet; the patience is only for a starved scheduler.
+func c05Idle(cs *c05Case) time.Duration {
+	d := 10 * time.Second
+	if n, _ := strconv.Atoi(os.Getenv("C05_STUCK_SEEN")); n >= 4 {
+		d = 3 * time.Second // the implementation has already been found stuck several times in this run
+	}
+	return d * c05Scale(cs)
+}
+
+// c05WaitQuiet waits for done; false when the conns have been quiet for longer than idle (or cap elapsed).
+func c05WaitQuiet(done <-chan struct{}, clk *c05Clock, idle, hardCap time.Duration) bool {
+	start := time.Now()
+	tk := time.NewTicker(50 * time.Millisecond)
+	defer tk.Stop()
+	for {
+		select {
+		case <-done:
+			return true
+		case <-tk.C:
+			clk.mu.Lock()
+			last := clk.lastAct
+			clk.mu.Unlock()
+			if time.Since(last) > idle || time.Since(start) > hardCap {
+				return false
+			}
+		}
+	}
+}
+
 func c05Dump() string {
 	buf := make([]byte, 1<<16)
 	n := runtime.Stack(buf, true)
@@ -615,6 +654,15 @@ func c05RunMem(cs *c05Case, gate *c05Gate) (res c05Result) {
 	if gate != nil {
 		<-gate.startRelay
 	}
+	clk.mu.Lock()
+	clk.lastAct = time.Now()
+	clk.mu.Unlock()
+	quiet := make(chan struct{})
+	go func() {
+		if !c05WaitQuiet(done, clk, c05Idle(cs), 60*time.Second*c05Scale(cs)) {
+			close(quiet)
+		}
+	}()
 	select {
 	case <-done:
 	case <-clk.stuck:
@@ -624,20 +672,20 @@ func c05RunMem(cs *c05Case, gate *c05Gate) (res c05Result) {
 		res.UpEOF, res.DownEOF = R.wclosed, L.wclosed
 		res.CwUpN, res.CwDownN = R.cwCount, L.cwCount
 		snap = true
+		clk.lastAct = time.Now()
 		clk.mu.Unlock()
 		cancel()
 		if !res.Alive {
 			// stuck inside the prologue (no deadline armed, no data): unblock by closing
 			_ = L.Close()
 		}
-		select {
-		case <-done:
-		case <-time.After(20 * time.Second * c05Scale(cs)):
-			res.Hang = "after stuck+cancel\n" + c05Dump()
+		if !c05WaitQuiet(done, clk, c05Idle(cs), 30*time.Second*c05Scale(cs)) {
+			res.Hang = "stuck: the relay does not end after cancellation\n" + c05Dump()
 		}
-	case <-time.After(30 * time.Second * c05Scale(cs)):
+	case <-quiet:
 		clk.mu.Lock()
-		res.Hang = fmt.Sprintf("watchdog: now=%d Lblocked=%v Rblocked=%v Lfin=%v Rfin=%v\n", clk.now, L.blocked, R.blocked, L.finished, R.finished)
+		res.Hang = fmt.Sprintf("stuck: nothing happens on either socket and the connection is not finished (virtual now=%d stage=%d Lblocked=%v Rblocked=%v Lfin=%v Rfin=%v)\n", clk.now, clk.stage, L.blocked, R.blocked, L.finished, R.finished)
+		res.StuckStage = clk.stage + 1
 		clk.mu.Unlock()
 		res.Hang += c05Dump()
 		cancel()
@@ -645,7 +693,7 @@ func c05RunMem(cs *c05Case, gate *c05Gate) (res c05Result) {
 		_ = R.Close()
 		select {
 		case <-done:
-		case <-time.After(10 * time.Second):
+		case <-time.After(2 * time.Second):
 		}
 	}
 	clk.mu.Lock()
@@ -831,15 +879,27 @@ func c05RunTCP(cs *c05Case) (res c05Result) {
 	res.RelayErr = "norelay"
 	if reached {
 		res.Stack = c05Stack(relay)
-		var rerr error
-		if cs.GraceMs > 0 {
-			core := newRelayCore(relay, R, defaultRelayCopyEngine{}, func(int64) {}, func(int64) {})
-			core.halfCloseTimeout = time.Duration(cs.GraceMs) * time.Millisecond
-			rerr = core.run(ctx)
-		} else {
-			rerr = RelayTCPContextWithRecords(ctx, relay, R, func(int64) {}, func(int64) {})
+		relayDone := make(chan error, 1)
+		go func() {
+			if cs.GraceMs > 0 {
+				core := newRelayCore(relay, R, defaultRelayCopyEngine{}, func(int64) {}, func(int64) {})
+				core.halfCloseTimeout = time.Duration(cs.GraceMs) * time.Millisecond
+				relayDone <- core.run(ctx)
+			} else {
+				relayDone <- RelayTCPContextWithRecords(ctx, relay, R, func(int64) {}, func(int64) {})
+			}
+		}()
+		select {
+		case rerr := <-relayDone:
+			res.RelayErr = c05ErrClass(rerr)
+		case <-time.After(60 * time.Second * c05Scale(cs)):
+			// the relay's own context expired 15 s ago and it still has not returned
+			res.Hang = "stuck: the relay did not return after its context expired\n" + c05Dump()
+			res.Stack = c05Stack(relay)
+			_ = L.Close()
+			_ = R.Close()
+			return res
 		}
-		res.RelayErr = c05ErrClass(rerr)
 	}
 	// write-shutdowns must have reached the peers while the relay was still up: give the kernel a moment,
 	// then look before anything is closed
@@ -863,31 +923,86 @@ func c05RunTCP(cs *c05Case) (res c05Result) {
 	return res
 }
 
+func c05Dispatch(line []byte) any {
+	var kd struct {
+		Kind string `json:"kind"`
+	}
+	_ = json.Unmarshal(line, &kd)
+	if kd.Kind == "splice" {
+		var sc c05SpliceCase
+		if err := json.Unmarshal(line, &sc); err != nil {
+			return c05SpliceResult{Splice: true, Panic: "bad case: " + err.Error()}
+		}
+		return c05RunSplice(&sc)
+	}
+	var cs c05Case
+	if err := json.Unmarshal(line, &cs); err != nil {
+		return c05Result{Panic: "bad case: " + err.Error()}
+	}
+	if cs.Kind == "tcp" {
+		return c05RunTCP(&cs)
+	}
+	if cs.Kind == "multi" {
+		return c05RunMulti(&cs)
+	}
+	return c05RunMem(&cs, nil)
+}
+
+func c05HasHang(v any) bool {
+	b, _ := json.Marshal(v)
+	return strings.Contains(string(b), `"hang":"`)
+}
+
+// One case per input line, the result flushed at once.  Every case has a hard wall-clock cap; a case that is
+// stuck (its own verdict, or the cap) ends this process after its result is written: goroutines of the
+// implementation may be blocked for ever, the driver continues with the remaining cases in a fresh process.
 func TestVerifC05(t *testing.T) {
-	verifEachLine(t, func(line []byte) any {
-		var kd struct {
-			Kind string `json:"kind"`
+	in, err := os.Open(os.Getenv("VERIF_IN"))
+	if err != nil {
+		t.Fatalf("VERIF_IN: %v", err)
+	}
+	defer in.Close()
+	out, err := os.Create(os.Getenv("VERIF_OUT"))
+	if err != nil {
+		t.Fatalf("VERIF_OUT: %v", err)
+	}
+	defer out.Close()
+	sc := bufio.NewScanner(in)
+	sc.Buffer(make([]byte, 1<<20), 1<<28)
+	enc := json.NewEncoder(out)
+	for sc.Scan() {
+		line := append([]byte(nil), sc.Bytes()...)
+		if len(line) == 0 {
+			continue
 		}
-		_ = json.Unmarshal(line, &kd)
-		if kd.Kind == "splice" {
-			var sc c05SpliceCase
-			if err := json.Unmarshal(line, &sc); err != nil {
-				return c05SpliceResult{Splice: true, Panic: "bad case: " + err.Error()}
-			}
-			return c05RunSplice(&sc)
+		var ws struct {
+			WaitScale int64 `json:"wait_scale"`
 		}
-		var cs c05Case
-		if err := json.Unmarshal(line, &cs); err != nil {
-			return c05Result{Panic: "bad case: " + err.Error()}
+		_ = json.Unmarshal(line, &ws)
+		hardCap := 150 * time.Second
+		if ws.WaitScale > 1 {
+			hardCap *= time.Duration(ws.WaitScale)
 		}
-		if cs.Kind == "tcp" {
-			return c05RunTCP(&cs)
+		ch := make(chan any, 1)
+		go func() { ch <- c05Dispatch(line) }()
+		var res any
+		stuck := false
+		select {
+		case res = <-ch:
+			stuck = c05HasHang(res)
+		case <-time.After(hardCap):
+			res = map[string]any{"hang": "stuck: the case did not end within its hard wall-clock cap\n" + c05Dump(), "hard_cap": true}
+			stuck = true
 		}
-		if cs.Kind == "multi" {
-			return c05RunMulti(&cs)
+		if err := enc.Encode(res); err != nil {
+			t.Fatalf("encode: %v", err)
 		}
-		return c05RunMem(&cs, nil)
-	})
+		_ = out.Sync()
+		if stuck {
+			_ = out.Close()
+			os.Exit(3)
+		}
+	}
 }
 
 // c05RunMulti: k connections over the process-wide pools.  Order is a list of [op, conn]: op 0 = run the
@@ -912,7 +1027,7 @@ func c05RunMulti(m *c05Case) map[string]any {
 		go func() { outs[i] <- c05RunMem(&m.Conns[i], gates[i]) }()
 		select {
 		case <-gates[i].prologueDone:
-		case <-time.After(60 * time.Second * c05Scale(m)):
+		case <-time.After(25 * time.Second * c05Scale(m)):
 			res[i].Hang = "prologue did not return\n" + c05Dump()
 		}
 	}
@@ -930,7 +1045,7 @@ func c05RunMulti(m *c05Case) map[string]any {
 			if h != "" {
 				res[i].Hang = h
 			}
-		case <-time.After(120 * time.Second * c05Scale(m)):
+		case <-time.After(100 * time.Second * c05Scale(m)):
 			res[i].Hang = "relay did not return\n" + c05Dump()
 		}
 	}
